@@ -153,16 +153,21 @@ func ZZ_C11_gc_cr_podenis() {
 		zz.Assert(len(cl.writes) == 0, "when the pod lookup fails nothing is written")
 		return
 	}
+	anyFixed := false
+	for _, a := range allocs {
+		anyFixed = anyFixed || a.fixed
+	}
 	if podPresent {
 		zz.Assert(!deleting, "a record whose pod exists is never moved to Deleting by the collector")
 		for _, w := range cl.writes {
 			zz.Assert(w.kind == "status-patch" && w.podENI.Status.Phase == podENI.Status.Phase, "while the pod exists only the last-seen stamp is refreshed")
 		}
+		// the TTL of a fixed allocation runs from the last time the pod was seen: a record with
+		// a fixed allocation anywhere among its allocations is stamped while the pod lives
+		if anyFixed {
+			zz.Assert(len(cl.writes) == 1, "a record that holds a fixed allocation - alone or next to elastic ones, in any position - is stamped 'seen now' while its pod exists")
+		}
 		return
-	}
-	anyFixed := false
-	for _, a := range allocs {
-		anyFixed = anyFixed || a.fixed
 	}
 	if deleting {
 		zz.Assert(podENI.Status.Phase != v1beta1.ENIPhaseDetaching && podENI.Status.Phase != v1beta1.ENIPhaseBinding, "a record that is being processed is left alone")
